@@ -856,6 +856,47 @@ Definition llgr_scenario_v (new_stream : bool) (x : ectx) (pol : policy_fn) (ema
       Ok (fst r1, fst r2, snd r2))).
 Definition llgr_scenario := llgr_scenario_v true.
 
+(* Table::drop_no_llgr(addr, family) for one destination (table/src/lib.rs): the paths of
+   the peer that carry NO_LLGR (0xFFFF0007) are removed when its LLGR period begins (RFC 9494
+   4.2; TableManager::mark_llgr_stale calls it right after restale_llgr).  Inputs as for
+   restale_llgr_changes; [others_left]: entries that are not eligible remain.  A change is
+   reported only when an eligible path was removed. *)
+Definition NO_LLGR : list N := [255; 255; 0; 7].
+
+Definition has_no_llgr (attrs : list attr) : bool :=
+  match find_code COMMUNITY attrs with
+  | Some a => match binary a with Some b => chunks4_contains NO_LLGR b | None => false end
+  | None => false
+  end.
+
+Definition drop_no_llgr_changes (fam dest : N) (addr : ipaddr) (old_best : option N) (paths : list path)
+           (others_left : bool) : list change :=
+  let doomed := fun p => ip_eqb (src_raddr (p_src p)) addr && has_no_llgr (p_attrs p) in
+  if negb (existsb doomed paths) then []
+  else
+    let rest := filter (fun p => negb (doomed p)) paths in
+    match rest, others_left with
+    | [], false => [ {| c_family := fam; c_dest := dest; c_best_changed := true; c_any_changed := true;
+                        c_replaced := None; c_paths := [] |} ]
+    | _, _ =>
+      let new_best := match rest with p :: _ => Some (p_lpid p) | [] => None end in
+      [ {| c_family := fam; c_dest := dest; c_best_changed := negb (opt_n_eqb old_best new_best);
+           c_any_changed := true; c_replaced := None; c_paths := rest |} ]
+    end.
+
+(* the whole of TableManager::mark_llgr_stale for the one-path destination, exported *)
+Definition llgr_full_stream (ps : peer_src) (nh : option nexthop) (attrs : list attr) : list change :=
+  llgr_stream true ps nh attrs
+  ++ drop_no_llgr_changes IPV4_UNICAST 1 (ps_raddr ps) (Some 1) [llgr_path ps true nh attrs] false.
+
+Definition llgr_scenario_full (x : ectx) (pol : policy_fn) (emax : N) (raddr : ipaddr)
+           (cid : option N) (ps : peer_src) (nh : option nexthop) (attrs : list attr)
+  : res (list sinkop * list sinkop * emap) :=
+  let e0 := if emax =? 1 then ENone else EAddPath [] in
+  rbind (process_change x pol emax raddr cid (llgr_change1 ps nh attrs) e0) (fun r1 =>
+    rbind (run_changes x pol emax raddr cid (llgr_full_stream ps nh attrs) (snd r1)) (fun r2 =>
+      Ok (fst r1, fst r2, snd r2))).
+
 (* ------------------------------------------------------------ printers *)
 Definition v_attr (a : attr) : val :=
   match a_data a with
@@ -934,7 +975,7 @@ Definition run_case (c : case) : val :=
     v_res (fun o => VOpt v_attrs o) (rx_reach x rid cid attrs)
   | CLlgrScenario x emax raddr cid ps nh attrs =>
     v_res (fun r => VL [VList v_sinkop (fst (fst r)); VList v_sinkop (snd (fst r))])
-          (llgr_scenario x no_policy emax raddr cid ps nh attrs)
+          (llgr_scenario_full x no_policy emax raddr cid ps nh attrs)
   | CProcessPol x emax raddr cid ch e probe st pre default =>
     v_res (fun r => VL [VList v_sinkop (fst r); v_emap (snd r) probe])
           (process_change_r x (stmt_policy_r x raddr st pre default) emax raddr cid ch e)
